@@ -180,6 +180,10 @@ class RProp(Prop):
     def shrink_candidates(self, case):
         jobs = case["jobs"]
         n = len(jobs)
+        if case.get("inspect"):
+            c2 = copy.deepcopy(case)
+            c2["inspect"] = False
+            yield c2
         for i in range(n - 1, 0, -1):
             c2 = drop_job(case, i)
             if c2 is not None:
@@ -250,7 +254,7 @@ PROPS = {
                       "with verdict True every non-forever member must be done in the state implied by the events so far. "
                       "Non-trivial = at least 3 jobs.",
                  nontrivial=lambda cfg, r: len(cfg["jobs"]) > 3),
-    "C04": RProp("C04", 0, [41], oracles=['success_complete'], profile={"crit": 0.5, "exc": 0.45, "timeout": 0.7, "root_timeout": 0.6, "maxdur": 4, "nested": 0.35},
+    "C04": RProp("C04", 0, [41], oracles=['success_complete', 'timeout_effect'], profile={"crit": 0.5, "exc": 0.45, "timeout": 0.7, "root_timeout": 0.6, "maxdur": 4, "nested": 0.35},
                  rule="C04: at every observed end of a run the verdict (True / False / raised exception identity) is compared "
                       "with the classification (all non-forever done, some critical raised, timeout) of the state implied by the "
                       "events so far; failed_time_out()/failed_critical() are compared at every poll. Non-trivial = the "
@@ -263,7 +267,7 @@ PROPS = {
                       "classification; acceptance up to level 2 (timing: the clock only moves when nothing is unreported). "
                       "Non-trivial = some critical job raises.",
                  nontrivial=lambda cfg, r: any((not j["sched"]) and j["crit"] and j["out"] == "exc" for j in cfg["jobs"])),
-    "C08": RProp("C08", 2, [52, 51, 41], oracles=['no_start_after_exit'], profile={"timeout": 0.8, "root_timeout": 0.7, "never": 0.25, "window": 0.5, "nested": 0.35},
+    "C08": RProp("C08", 2, [52, 51, 41], oracles=['no_start_after_exit', 'timeout_effect'], profile={"timeout": 0.8, "root_timeout": 0.7, "never": 0.25, "window": 0.5, "nested": 0.35},
                  rule="C08: expiry takes the timeout path (monitor chk_exit), nothing starts afterwards, timeout verdict; "
                       "acceptance up to level 2 compares the timeout argument of every asyncio.wait call and the instant of "
                       "every clock jump. Non-trivial = some scheduler has a timeout.",
